@@ -101,7 +101,23 @@ func explain(a, b interface{}) string {
 	return diffPath(reflect.ValueOf(a), reflect.ValueOf(b), "", 0)
 }
 
+// selfRoundTrips: does the object survive a JSON round trip in its OWN type? What its own wire format cannot carry
+// (apimachinery marshals the quantity "1000E" as "1") no JSON client can keep, hijacked or not.
+func selfRoundTrips(obj interface{}, fresh interface{}) bool {
+	j, err := json.Marshal(obj)
+	if err != nil || json.Unmarshal(j, fresh) != nil {
+		return false
+	}
+	return c19Equal.DeepEqual(obj, fresh)
+}
+
 func runC19(rep Rep, c C19Case) {
+	if c.Builtin != nil && !selfRoundTrips(c.Builtin, &appsv1.StatefulSet{}) {
+		rep.Exclude("the built-in object does not survive a JSON round trip in its own type")
+	}
+	if c.Advanced != nil && !selfRoundTrips(c.Advanced, &asv1.StatefulSet{}) {
+		rep.Exclude("the Advanced object does not survive a JSON round trip in its own type")
+	}
 	// (i) pure conversion, built-in -> Advanced -> built-in
 	if c.Builtin != nil {
 		x := c.Builtin.DeepCopy()
@@ -479,6 +495,9 @@ func FuzzC19(f *testing.F) {
 	f.Add([]byte(`{"metadata":{"creationTimestamp":null,"deletionTimestamp":"2020-01-01T00:00:00Z","managedFields":[{"manager":"m","time":"2020-01-01T00:00:00Z","fieldsV1":{"f:x":{}}}]},"spec":{"template":{"spec":{"containers":[]}},"selector":null},"status":{"conditions":[{"type":"x","status":"True","lastTransitionTime":null}]}}`))
 	// found by this fuzzer (thorough tier) against an earlier, byte-wise comparison of raw JSON - a false alarm of the harness
 	f.Add([]byte(`{"metAdAtA":{"mAnAgedFields":[{"fieldsV1":{"&":{}}}]}}`))
+	// found by this fuzzer: a quantity that apimachinery itself marshals lossily ("1000E" -> "1") - excluded by the
+	// self-round-trip premise, kept here so that the exclusion stays exercised
+	f.Add([]byte(`{"spec":{"template":{"spec":{"containers":[{"resources":{"limits":{"":"1000E"}}}]}}}}`))
 	r := rec("C19")
 	f.Fuzz(func(t *testing.T, data []byte) {
 		var x appsv1.StatefulSet
